@@ -16,6 +16,7 @@ const (
 type contract struct {
 	ret     retKind
 	writes  []int // arguments whose pointee is written (contents come from the other arguments / the outside)
+	copies  bool  // what is written is a copy of bytes / runes: the written object keeps no reference to the other arguments
 	io      bool  // performs I/O through / mutates its receiver (Args[0], or the invoke receiver)
 	permute int   // argument permuted in place (sort.*); -1 none. 0 means Args[0] only when hasPermute
 	hasPerm bool
@@ -166,16 +167,25 @@ var contracts = map[string]contract{
 	"strings.NewReplacer":            {},
 	"strings.NewReader":              {},
 	"(*strings.Replacer).Replace":    {},
-	"(*strings.Builder).WriteString": {writes: []int{0}},
-	"(*strings.Builder).WriteByte":   {writes: []int{0}},
-	"(*strings.Builder).WriteRune":   {writes: []int{0}},
+	"(*strings.Builder).WriteString": {writes: []int{0}, copies: true},
+	"(*strings.Builder).WriteByte":   {writes: []int{0}, copies: true},
+	"(*strings.Builder).WriteRune":   {writes: []int{0}, copies: true},
+	"(*strings.Builder).Write":       {writes: []int{0}, copies: true},
+	"(*strings.Builder).Grow":        {writes: []int{0}, copies: true},
+	"(*strings.Builder).Reset":       {writes: []int{0}, copies: true},
+	"(*strings.Builder).Len":         {},
 	"(*strings.Builder).String":      {},
-	"(*bytes.Buffer).Write":          {writes: []int{0}},
-	"(*bytes.Buffer).WriteString":    {writes: []int{0}},
-	"(*bytes.Buffer).WriteByte":      {writes: []int{0}},
+	"(*bytes.Buffer).Write":          {writes: []int{0}, copies: true},
+	"(*bytes.Buffer).WriteString":    {writes: []int{0}, copies: true},
+	"(*bytes.Buffer).WriteByte":      {writes: []int{0}, copies: true},
+	"(*bytes.Buffer).WriteRune":      {writes: []int{0}, copies: true},
+	"(*bytes.Buffer).Truncate":       {writes: []int{0}, copies: true},
+	"(*bytes.Buffer).Reset":          {writes: []int{0}, copies: true},
+	"(*bytes.Buffer).Grow":           {writes: []int{0}, copies: true},
 	"(*bytes.Buffer).Bytes":          {ret: retAlias},
 	"(*bytes.Buffer).String":         {},
 	"(*bytes.Buffer).Len":            {},
+	"(*bytes.Buffer).Cap":            {},
 	"regexp.MustCompile":             {},
 	"regexp.Compile":                 {},
 	"context.Background":             {},
